@@ -87,7 +87,7 @@ func BeforeLock(m *sync.Mutex, label int32) {
 	tick(s, label)
 	if m.TryLock() {
 		m.Unlock()
-		if s.countdown <= 0 {
+		if s.syncPoint() || s.countdown <= 0 {
 			s.preemptEnabled(label, func() bool {
 				if m.TryLock() {
 					m.Unlock()
@@ -123,7 +123,7 @@ func BeforeWLock(m *sync.RWMutex, label int32) {
 		return false
 	}
 	if en() {
-		if s.countdown <= 0 {
+		if s.syncPoint() || s.countdown <= 0 {
 			s.preemptEnabled(label, en)
 		}
 		return
@@ -147,7 +147,7 @@ func BeforeRLock(m *sync.RWMutex, label int32) {
 		return false
 	}
 	if en() {
-		if s.countdown <= 0 {
+		if s.syncPoint() || s.countdown <= 0 {
 			s.preemptEnabled(label, en)
 		}
 		return
@@ -175,7 +175,7 @@ func BeforeLockAny(m any, label int32) {
 	tick(s, label)
 	tl, ok := m.(tryLocker)
 	if !ok {
-		if s.countdown <= 0 {
+		if s.syncPoint() || s.countdown <= 0 {
 			s.preempt(label)
 		}
 		return
@@ -188,7 +188,7 @@ func BeforeLockAny(m any, label int32) {
 		return false
 	}
 	if en() {
-		if s.countdown <= 0 {
+		if s.syncPoint() || s.countdown <= 0 {
 			s.preemptEnabled(label, en)
 		}
 		return
@@ -206,7 +206,7 @@ func BeforeRLockAny(m any, label int32) {
 	tick(s, label)
 	tl, ok := m.(tryRLocker)
 	if !ok {
-		if s.countdown <= 0 {
+		if s.syncPoint() || s.countdown <= 0 {
 			s.preempt(label)
 		}
 		return
@@ -219,7 +219,7 @@ func BeforeRLockAny(m any, label int32) {
 		return false
 	}
 	if en() {
-		if s.countdown <= 0 {
+		if s.syncPoint() || s.countdown <= 0 {
 			s.preemptEnabled(label, en)
 		}
 		return
